@@ -29,8 +29,11 @@ KEYWORDS = {
     'TRUE': 'BooleanLiteral', 'FALSE': 'BooleanLiteral',
 }
 
-_INT = re.compile(r'^(0|[1-9][0-9]*)$')
-_REAL = re.compile(r'^([0-9]+\.[0-9]*|\.[0-9]+)$')
+# literals as in LtlLexer.g4 (decimal / hex / binary numerals with underscores, reals with optional exponent)
+_DIGITS = r'[0-9](?:[0-9_]*[0-9])?'
+_EXP = r'[eE][+-]?[0-9]+'
+_INT = re.compile(r'^(?:0|[1-9](?:(?:%s)?|_+%s)|0[xX][0-9a-fA-F](?:[0-9a-fA-F_]*[0-9a-fA-F])?|0[bB][01](?:[01_]*[01])?)$' % (_DIGITS, _DIGITS))
+_REAL = re.compile(r'^(?:%s\.(?:%s)?(?:%s)?|\.%s(?:%s)?|%s%s)$' % (_DIGITS, _DIGITS, _EXP, _DIGITS, _EXP, _DIGITS, _EXP))
 _ID = re.compile(r'^[A-Za-z_$][A-Za-z_$0-9./]*$')
 
 
